@@ -23,7 +23,7 @@ ASSUMPTIONS = [
     'only the char-level functions (elide_start/elide_end and helpers) are covered; write_truncated_*/write_padded_* (FormatRecorder replay, UnicodeWidthStr::width of whole strings) and wrap_bytes (textwrap) are not encoded',
     'str slicing panics when an index is not a character boundary (checked on the abstract UTF-8 layout)',
 ]
-BUDGET = {'quick': 240, 'thorough': 2400}
+BUDGET = {'quick': 900, 'thorough': 2400}
 F = 'cli/src/text_util.rs'
 
 def jobs(tier):
